@@ -65,7 +65,7 @@ type regEnv struct {
 
 func newRegEnv(c *regCase) (*regEnv, error) {
 	runCounter++
-	dir := filepath.Join(RunDirBase, fmt.Sprintf("g%d", runCounter))
+	dir := filepath.Join(RunDirBase, "g")
 	os.RemoveAll(dir)
 	s := sim.New(sim.Config{Seed: c.Seed, Policy: "random", Sticky: 0.7, Faults: c.Faults, KeepLog: keepLog})
 	w, err := sim.NewWorld(s, dir)
